@@ -28,6 +28,8 @@ ESCAPES = {
     ("copy_file", "copy_file", "NotSupported"): "optional same-filesystem fast path absent: generic stream copy does the work (R11.2)",
     ("move_file", "move_file", "NotSupported"): "optional fast path absent: generic copy+remove does the work",
     ("move_dir", "move_dir", "NotSupported"): "optional fast path absent: generic walk copy + remove_dir_all does the work",
+    ("exists", "read_path", "FileNotFound"): "the overlay's resolver reports the path as absent (hidden by a marker or in no layer): "
+                                             "'does not exist' is the correct answer, every other kind is returned",
 }
 
 
@@ -115,6 +117,12 @@ def producing_method(t):
         if c:
             sh = short(c[0])
             if sh.split("::")[0] in ("FileSystem", "AsyncFileSystem", "VfsPath", "AsyncVfsPath"):
+                return sh.split("::")[-1]
+    for x in walk(t):
+        c = call_of(x) if x[0] in ("call", "await") else None
+        if c and c[2] is not None:
+            sh = short(c[0])
+            if sh.split("::")[0] in ("OverlayFS", "AsyncOverlayFS", "AltrootFS", "AsyncAltrootFS"):
                 return sh.split("::")[-1]
     return None
 
